@@ -5,6 +5,7 @@
 package harness
 
 import (
+	"bytes"
 	"encoding/json"
 	"fmt"
 	"log"
@@ -13,6 +14,7 @@ import (
 	"runtime"
 	"sort"
 	"strings"
+	"syscall"
 	"testing"
 	"testing/synctest"
 	"time"
@@ -193,6 +195,19 @@ func RunOne(t *testing.T, hname, prop string, params map[string]string, tape *si
 				res.Violations[i].Class = prop + "/lockset-race"
 			}
 		}
+		if s.StepLimit {
+			// every step of the budget was used: something keeps running through scheduling points without
+			// ever settling (a loop that retries for ever). The budgets are far above what any workload needs
+			// (no run of the unchanged tree has ever come near them, at either tier).
+			top, topN := 0, 0
+			for site, n := range s.SitesHit {
+				if site > 0 && (n > topN || (n == topN && site < top)) {
+					top, topN = site, n
+				}
+			}
+			res.Violations = append(res.Violations, simrt.Violation{Class: prop + "/livelock", Key: simrt.SiteKey(top),
+				Detail: fmt.Sprintf("the run used all %d scheduler steps without settling; the site visited most is %s (%d times)", s.Step, simrt.SiteName(top), topN)})
+		}
 		res.Counters = s.Counters
 		res.TimedOut = s.TimedOut
 		res.StepLimit = s.StepLimit
@@ -265,7 +280,15 @@ func RunBatch(t *testing.T, hname, prop string, params map[string]string, base u
 		if isolateArgs != nil {
 			r = runIsolated(i, seed)
 		} else {
+			// a simulated run takes milliseconds of real time. One that is still going after HangLimit has a
+			// goroutine spinning without ever reaching a scheduling point: it cannot be stopped from inside,
+			// so this process gives up (exit 3) and the driver repeats the range with one killable child per run
+			wd := time.AfterFunc(HangLimit, func() {
+				fmt.Fprintf(os.Stderr, "RUN-HUNG seed=%d (no end after %v of real time)\n", seed, HangLimit)
+				os.Exit(3)
+			})
 			r = RunOne(t, hname, prop, params, simrt.NewTape(seed), false)
+			wd.Stop()
 		}
 		if br.Runs == 0 {
 			br.FirstSeed = seed
@@ -590,6 +613,9 @@ func siteName(k int) string { return simrt.SiteName(k) }
 // worker.
 var isolateArgs []string
 
+// HangLimit is the real time after which a single simulated run counts as hung.
+var HangLimit = 30 * time.Second
+
 func runIsolated(index int, seed uint64) RunResult {
 	out, err := os.CreateTemp("", "verif-single-*.json")
 	if err != nil {
@@ -599,7 +625,58 @@ func runIsolated(index int, seed uint64) RunResult {
 	defer os.Remove(out.Name())
 	args := append([]string{"-test.run", "^TestWorker$", "-test.timeout", "0", "-single", "-from", fmt.Sprint(index), "-out", out.Name()}, isolateArgs...)
 	cmd := exec.Command(os.Args[0], args...)
-	b, err := cmd.CombinedOutput()
+	var buf bytes.Buffer
+	cmd.Stdout, cmd.Stderr = &buf, &buf
+	if err = cmd.Start(); err != nil {
+		return RunResult{Seed: seed, Infra: err.Error()}
+	}
+	done := make(chan error, 1)
+	go func() { done <- cmd.Wait() }()
+	hung := false
+	select {
+	case err = <-done:
+	case <-time.After(HangLimit + 10*time.Second):
+		// ask the runtime for a goroutine dump (SIGQUIT), then make sure the child is gone
+		hung = true
+		cmd.Process.Signal(syscall.SIGQUIT)
+		select {
+		case err = <-done:
+		case <-time.After(5 * time.Second):
+			cmd.Process.Kill()
+			err = <-done
+		}
+	}
+	b := buf.Bytes()
+	if hung {
+		prop := "C05"
+		for i, a := range isolateArgs {
+			if a == "-prop" && i+1 < len(isolateArgs) {
+				prop = isolateArgs[i+1]
+			}
+		}
+		// the spinning goroutine: running or runnable, inside the library under test
+		key, msg := "unknown", string(b)
+		for _, g := range strings.Split(msg, "\n\n") {
+			if !(strings.Contains(g, "[running") || strings.Contains(g, "[runnable")) {
+				continue
+			}
+			for _, l := range strings.Split(g, "\n") {
+				if strings.HasPrefix(l, "github.com/Workiva/frugal/lib/go.") {
+					key = strings.SplitN(strings.TrimPrefix(l, "github.com/Workiva/frugal/lib/go."), "(0x", 2)[0]
+					key = strings.TrimSuffix(key, "(...)")
+					break
+				}
+			}
+			if key != "unknown" {
+				break
+			}
+		}
+		if len(msg) > 6000 {
+			msg = msg[:6000]
+		}
+		return RunResult{Seed: seed, Nontrivial: true, Violations: []simrt.Violation{{Class: prop + "/livelock", Key: key,
+			Detail: fmt.Sprintf("the run did not end within %v of real time (a simulated run takes milliseconds): a goroutine of the system under test spins without reaching a scheduling point - %s\n%s", HangLimit+10*time.Second, key, msg)}}}
+	}
 	var r RunResult
 	if data, e2 := os.ReadFile(out.Name()); e2 == nil && len(data) > 2 && err == nil {
 		if e3 := json.Unmarshal(data, &r); e3 == nil {
